@@ -58,11 +58,16 @@ COMPONENTS = {"real": ["operon_ai.surveillance.immune_system.ImmuneSystem", "MHC
 ASSUMPTIONS = [
     "a value exactly on a bound (within 1e-9 relative) is neither asserted inside nor outside the baseline",
     "observations are finite numbers (no NaN/inf response times or confidences)",
+    "a streak across an interval in which the watcher was desensitised is accepted under both readings (anergic "
+    "inspections ignored / counted): the harness count is extended by every outside-baseline inspection and reset only "
+    "by a clean inspection that a responsive watcher actually looked at",
     "the second signal is judged against an upper bound: a streak counts every outside-baseline inspection since the "
     "last reset / retraining whichever path answered, a manual flag counts until tcell.reset() or retraining",
     "'desensitised' = at least anergy_threshold reset_without_confirmation() calls that each followed an "
     "unconfirmed anomaly (signal 1 without signal 2) since the watcher was created",
-    "action order IGNORE < MONITOR < ISOLATE < SHUTDOWN; ALERT is not generated (its place in the order is not stated)",
+    "action order IGNORE < MONITOR < ISOLATE < SHUTDOWN; the rank of ALERT is not stated: for caller-built responses "
+    "carrying ALERT only 'tolerance never produces isolate/shutdown from a recommendation that was neither' and "
+    "'CRITICAL untouched' are judged",
     "a raising rule condition is the caller's own exception and is not generated",
     "'immediately after training' = the very next call on the system is inspect() of the same agent",
     "current behaviour = the last window_size observations and all canary results fed since registration/clear; "
@@ -79,13 +84,13 @@ EXPECT_PROBES = ("confirmed", "critical", "suspicious", "anergic_silent", "treg_
                  "remembered_threat_present", "retrained", "edge_zone", "canary_failed", "flag_present_outside",
                  "flag_or_memory_inside", "self_tolerance_checked", "direct_tcell", "direct_treg", "mem_pruned",
                  "streak_confirmed", "answer_one_step_below_table", "recalled_lowered_answer",
-                 "threads_run", "threads_preempted_in_inspect", "threads_inside_inspected", "threads_outside_alarm")
+                 "treg_saw_alert", "threads_run", "threads_preempted_in_inspect", "threads_inside_inspected", "threads_outside_alarm")
 
 LEVELS = [TL.NONE, TL.SUSPICIOUS, TL.CONFIRMED, TL.CRITICAL]
 # what the watcher itself recommends for a threat level (its response table)
 TABLE = {TL.NONE: RA.IGNORE, TL.SUSPICIOUS: RA.MONITOR, TL.CONFIRMED: RA.ISOLATE, TL.CRITICAL: RA.SHUTDOWN}
 STEP = {RA.IGNORE: 0, RA.MONITOR: 1, RA.ISOLATE: 2, RA.SHUTDOWN: 3}
-ACTIONS = [RA.IGNORE, RA.MONITOR, RA.ISOLATE, RA.SHUTDOWN]
+ACTIONS = [RA.IGNORE, RA.MONITOR, RA.ISOLATE, RA.SHUTDOWN, RA.ALERT]
 AGENTS = ["a", "b"]
 OUT = ["ok fine", '{"ok": 1}', "1. ok fine", "- ok fine", "# ok fine", "zebra quux", "ok fine zebra", ""]
 ERRS = [None, "E1", "E2"]
@@ -340,6 +345,8 @@ def _gen_direct(rng, tier):
         elif o == "treg":
             lvl = rng.randrange(4)
             act = lvl          # the watcher's own response table: NONE/IGNORE .. CRITICAL/SHUTDOWN
+            if rng.random() < 0.2:
+                act = 4        # ALERT: a public action an integrator may put into a response it builds itself
             ops.append(["treg", lvl, act, rng.choice([0, cfg["stab"], max(0, cfg["stab"] - 1), cfg["stab"] + 1]),
                         rng.choice([None, 0.0, 3599.9, 3600.0, 3600.1, 7200.0]), rng.random() < 0.4])
         else:
@@ -544,6 +551,12 @@ def judge_alarm(k, site, z, resp, second, anergic):
 
 def judge_treg(k, resp_in, result):
     o, m = resp_in.action, result.modified_action
+    # whatever the rank of an action outside the response table (ALERT) is: tolerance is not a signal, so it never
+    # turns a recommendation that was not isolate/shutdown into isolate/shutdown
+    if o not in (RA.ISOLATE, RA.SHUTDOWN) and m in (RA.ISOLATE, RA.SHUTDOWN):
+        k.violation("treg_step", "raised_to_isolate_or_shutdown", "treg", f"{o.name}->{m.name}")
+    if o == RA.ALERT:
+        k.probe("treg_saw_alert")
     if o in STEP:
         if m not in STEP or STEP[m] > STEP[o]:
             k.violation("treg_step", "action_raised", "treg", f"{o.name}->{getattr(m, 'name', m)}")
@@ -843,8 +856,11 @@ def run_system(plan, k):
                     w.unconfirmed = (t_resp.signal1 == Signal1.NON_SELF and t_resp.signal2 == Signal2.NONE)
             # model update
             if z == "inside":
-                if t_resp is not None:      # the watcher saw the clean fingerprint; an answer that by-passed it
-                    w.streak = 0            # leaves the harness count as it is (it is only an upper bound)
+                # the watcher saw the clean fingerprint: an answer that by-passed it, or that a desensitised watcher
+                # gave without looking (the statement does not say what a streak is across an anergic interval),
+                # leaves the harness count as it is - it is only an upper bound over both readings
+                if t_resp is not None and not t_resp.is_anergic and not anergic:
+                    w.streak = 0
             elif z in ("outside", "edge"):
                 w.streak = streak
                 w.max_streak = max(w.max_streak, streak)
@@ -917,7 +933,8 @@ def run_direct(plan, k):
             if not resp.is_anergic:
                 w.unconfirmed = (resp.signal1 == Signal1.NON_SELF and resp.signal2 == Signal2.NONE)
             if z == "inside":
-                w.streak = 0
+                if not resp.is_anergic and not anergic:     # see run_system: both readings of an anergic interval
+                    w.streak = 0
             else:
                 w.streak = streak
                 if z == "outside" and streak >= 2:
